@@ -375,6 +375,33 @@ def _strip_views(t):
             return t
 
 
+def merger(cx: Cx) -> FunctionInfo | None:
+    """The method that merges an incoming record into one the converter owns: ``Converter._merge`` - or, when it
+    has been renamed / fused with the indexing, the Converter method with Record parameters ``record`` and ``into``
+    that adds to the synonym lists of ``into``."""
+    import ast as _ast
+
+    fn = cx.model.functions.get(f"{CONV}._merge")
+    if fn is not None:
+        return fn
+    ci = cx.model.classes.get(CONV)
+    hits = []
+    for m in (ci.methods.values() if ci is not None else ()):
+        names = [p.name for p in m.params]
+        if "into" not in names or "record" not in names:
+            continue
+        for n in _ast.walk(m.node):
+            if isinstance(n, _ast.Call) and isinstance(n.func, _ast.Attribute) and n.func.attr in ("append", "extend", "insert") and isinstance(n.func.value, _ast.Attribute) and n.func.value.attr.endswith("_synonyms") and isinstance(n.func.value.value, _ast.Name) and n.func.value.value.id == "into":
+                hits.append(m)
+                break
+    return hits[0] if len(hits) == 1 else None
+
+
+def merger_name(cx: Cx) -> str:
+    m = merger(cx)
+    return m.name if m is not None else "_merge"
+
+
 def constructor_tables(cx: Cx, ob_id: str) -> dict[str, list[Entry]]:
     """Entries of each derived table as built by ``Converter.__init__``."""
     init = cx.fn(f"{CONV}.__init__", ob_id)
@@ -435,6 +462,15 @@ def constructor_tables(cx: Cx, ob_id: str) -> dict[str, list[Entry]]:
             kf = prov.fields(v[2][1])
             conds = tuple((c, True) for g in v[3] for c in g[2])
             tables[name] = [Entry(name, frozenset(f for r, f in kf if r != "?"), any(r == "?" for r, _ in kf), v[2][2], _value_field(prov, v[2][2]), conds, where(init, ev.line), init.qualname, ev.line, prov.record_of(v[2][1]))]
+    # tables created empty and filled entry by entry inside __init__ itself (one pass over the records for all of them)
+    inline = None
+    for name in TABLES:
+        if name in tables or name in alias:
+            continue
+        if inline is None:
+            inline = index_method_entries(cx, init, ob_id)
+        if inline.get(name):
+            tables[name] = inline[name]
     for name, src in alias.items():
         if src in tables:
             tables[name] = [Entry(name, e.key_fields, e.key_unknown, e.value, e.value_field, e.conditions, e.site, e.fn, e.line, e.record) for e in tables[src]]
@@ -492,6 +528,28 @@ def index_method_entries(cx: Cx, fn: FunctionInfo, ob_id: str) -> dict[str, list
                 Entry(table, frozenset(f for r, f in kf if r != "?"), any(r == "?" for r, _ in kf), c[2][1], _value_field(prov, c[2][1]), _conds(ctx, s, ev) + ((("absent",), True),), where(fn, ev.line), fn.qualname, ev.line, prov.record_of(c[2][0]), c[2][0])
             )
     return out
+
+
+def _reset_unconditionally(cx: Cx, ob: Ob, attr: str) -> bool:
+    """Does every path of ``Converter._index`` empty ``self.<attr>`` (``.clear()`` or rebinding to an empty
+    display), outside any test or loop?"""
+    ix = cx.model.functions.get(f"{CONV}._index")
+    if ix is None or not ix.self_name:
+        return False
+    s = cx.summary(ix, ob.id)
+    me = ("param", ix.self_name)
+    tgt = ("attr", me, attr)
+
+    def resets(p) -> bool:
+        for ev in p.events:
+            if ev.kind == "expr" and op(ev.a) == "call" and ev.a[1] == ("attr", tgt, "clear"):
+                return True
+            if ev.kind == "store" and ev.a == tgt and (op(ev.b) in ("dict", "list", "set", "tuple") and not ev.b[1] or (op(ev.b) == "new" and not s.mutations_of(ev.b) and op(ev.b[4] if len(ev.b) > 4 else None) in ("dict", "list", "set") and not ev.b[4][1])):
+                return True
+        return False
+
+    normal = [p for p in s.paths if p.out is None or p.out[0] == "return"]
+    return bool(normal) and all(resets(p) for p in normal)
 
 
 def self_state_writes(cx: Cx, cls_q: str, ob_id: str) -> list[tuple[FunctionInfo, str, Ev, str]]:
@@ -740,6 +798,63 @@ def reftuple_args(t):
     return None
 
 
+def table_of_code(cx: Cx, paths) -> str | None:
+    """A decision made through a TABLE OF RULES: the loop body consults a module-level tuple / list / dict whose
+    elements hold code (lambdas, functions), or calls a callable it picked out of a data structure.  The tests and
+    actions are then values, not control flow, and path-shaped rules have nothing to read.  Returns a description."""
+    import ast as _ast
+
+    from .terms import subterms as _sub
+
+    def codeish_const(x) -> bool:
+        mod = cx.model.modules.get(x[1])
+        node = mod.constants.get(x[2]) if mod is not None else None
+        if not isinstance(node, (_ast.Tuple, _ast.List, _ast.Dict)):
+            return False
+        for n in _ast.walk(node):
+            if isinstance(n, _ast.Lambda):
+                return True
+            if isinstance(n, _ast.Name) and mod is not None:
+                r = cx.model.resolve_global(mod, n.id)
+                if r and r[0] == "func":
+                    return True
+        return False
+
+    def scan(ps):
+        for p in ps:
+            for ev in p.events:
+                for t in (ev.a, ev.b):
+                    if not isinstance(t, tuple):
+                        continue
+                    for x in _sub(t):
+                        if op(x) == "gconst" and codeish_const(x):
+                            return f"the table `{x[2]}`"
+                        if op(x) == "call" and (op(x[1]) in ("item", "bv", "phi") or (op(x[1]) == "attr" and op(x[1][1]) == "call" and x[1][1][1] == ("builtin", "next"))):
+                            return f"the computed callable `{show(x[1])[:40]}`"
+                if ev.body:
+                    r = scan(ev.body)
+                    if r:
+                        return r
+        return None
+
+    return scan(paths)
+
+
+#: what kind of string each conversion function of Converter recognises
+INPUT_KIND = {
+    "compress": "uri", "compress_strict": "uri", "parse_uri": "uri", "is_uri": "uri", "standardize_uri": "uri",
+    "expand": "curie", "expand_strict": "curie", "parse_curie": "curie", "is_curie": "curie", "standardize_curie": "curie", "expand_all": "curie",
+    "parse": "both", "compress_or_standardize": "both", "expand_or_standardize": "both",
+}  # fmt: skip
+
+
+def other_kind_call(t, self_term, expected: str) -> bool:
+    """Does ``t`` answer through a conversion function of self that takes another kind of input than ``expected``?"""
+    from .terms import subterms as _sub
+
+    return any(self_call(y, self_term) and INPUT_KIND.get(y[1][2], expected) != expected for y in _sub(t))
+
+
 def self_call(t, self_term, name: str | None = None) -> bool:
     return op(t) == "call" and op(t[1]) == "attr" and t[1][1] == self_term and (name is None or t[1][2] == name)
 
@@ -770,7 +885,7 @@ def state_closure(cx: Cx, ob: Ob) -> None:
             derived[ev.a[2]] = (ev.b, ev.line)
     writers = self_state_writes(cx, CONV, ob.id)
     maintained = {attr for m, attr, ev, how in writers if m.name == "_index"}
-    allowed_writers = {"__init__", "_index", "add_record", "_merge", "add_prefix"}
+    allowed_writers = {"__init__", "_index", "add_record", "_merge", "add_prefix", merger_name(cx)}
     for name, (value, line) in derived.items():
         if name in BASE:
             continue
@@ -799,6 +914,12 @@ def state_closure(cx: Cx, ob: Ob) -> None:
                 )
             continue
         ob.site(f"{where(m, ev.line)} {m.qualname}", f"writes self.{attr}")
+        if attr not in TABLES and attr not in BASE and how in ("item-store", "call .setdefault()") and _reset_unconditionally(cx, ob, attr):
+            # a memo of query results keyed by the query, which _index - run on every mutation path (pairing
+            # obligation) - resets on all of its paths.  That the key covers everything the answer depends on is
+            # not a shape; a single-slot cache, or one reset only on some mutation paths, is reported below.
+            ob.undecide(f"{m.name} fills self.{attr}, a keyed cache of query results that _index resets unconditionally: that the key determines the answer is not decided")
+            continue
         ob.violate(
             m.qualname,
             where(m, ev.line),
@@ -816,7 +937,11 @@ def state_closure(cx: Cx, ob: Ob) -> None:
                 base = t[1] if op(t) in ("item", "attr") else None
                 if op(t) == "item" and op(base) == "attr" and base[2] in TABLES:
                     ob.violate(fn.qualname, where(fn, ev.line), f"{fn.name} writes lookup table .{base[2]} of a converter from outside the class", detail=f"foreign-write:{base[2]}")
-                if op(t) == "attr" and t[2] in TABLES and op(base) != "const":
+                if op(t) == "attr" and t[2] in TABLES and op(base) == "call" and op(base[1]) == "attr" and base[1][2] == "__new__":
+                    # an object allocated with __new__ and filled by hand: no existing converter is written, but
+                    # nothing relates the tables it gets to its records either
+                    ob.undecide(f"{fn.name} assembles a converter by hand (`{show(base)[:40]}`, then its tables are assigned one by one), bypassing __init__: agreement of its tables with its records is not decided")
+                elif op(t) == "attr" and t[2] in TABLES and op(base) != "const":
                     ob.violate(fn.qualname, where(fn, ev.line), f"{fn.name} rebinds lookup table .{t[2]} of a converter from outside the class", detail=f"foreign-write:{t[2]}")
 
 
@@ -1517,10 +1642,10 @@ def constructor_owns_records(cx: Cx, ob: Ob) -> None:
             if parent is not None and op(parent) == "call":
                 if parent[1] in MATERIALISE and parent[2][:1] == (rp,):
                     ok = True
+                if parent[1] == ("builtin", "isinstance") and parent[2][:1] == (rp,):
+                    ok = True  # a type test consumes nothing
             if parent is not None and op(parent) == "star":
                 ok = True  # [*records] / (*records,) build a fresh sequence
-                if parent[1] == ("builtin", "isinstance") and parent[2][:1] == (rp,):
-                    ok = True
             if parent is not None and op(parent) == "cmp" and is_const(parent[3], None):
                 ok = True
             if not ok:
